@@ -210,6 +210,9 @@ def worker_main(prop_id, tier, seed, shard, nshards, out_path, only_case=None):
     mon = Monitor(prop_id, seed, tier)
     t0 = time.time()
     try:
+        if getattr(prop, 'CONTRACTS', True):
+            from vf import contracts
+            contracts.install(mon)
         if hasattr(prop, 'setup'):
             prop.setup(ctx)
         if only_case is not None and only_case >= 0:
